@@ -263,6 +263,33 @@ def check_after_failure(out, stats):
                                  {'harness': 'after_failure', 'garbage': garbage}, (0, 0)))
 
 
+def check_reuse(out, stats):
+    """One Payload object used for two decodes (a session keeping a decoder, a caller re-using an instance): the packets
+    after the second decode are those of the second string alone - whatever the first one was, whether or not it failed."""
+    packet, payload = _mods()
+    lists = [[], [(4, 'one'), (4, 'two')], [(4, b'\x00\x01')], [(2, None)], [(4, {'a': 1}), (6, None)]]
+    firsts = [codec.ref_payload_encode(x) for x in lists] + ['x', '4ok\x1e9', 'b!', '\x1e'.join(['4m'] * 17)]
+    for a in firsts:
+        for nxt in lists:
+            b = codec.ref_payload_encode(nxt)
+            stats['cases'] += 1
+            stats['nontrivial'] += 1
+            p = payload.Payload()
+            try:
+                p.decode(a)
+            except Exception:
+                pass
+            try:
+                p.decode(b)
+                ok = len(p.packets) == len(nxt) and all(_same_packet(q, t, d) for q, (t, d) in zip(p.packets, nxt))
+                got = [(q.packet_type, q.data) for q in p.packets]
+            except Exception as e:
+                ok, got = False, 'raised %r' % (e,)
+            if not ok:
+                out.append(_viol('decode_depends_on_earlier_decode', 'decode', 'one Payload object: after decode(%r), decode(%r) leaves %r, want %r'
+                                 % (a[:24], b[:24], got, nxt), {'harness': 'reuse'}, (0, len(a))))
+
+
 def _work(chunk):
     kind, items = chunk
     out = []
@@ -281,6 +308,7 @@ def _work(chunk):
         elif kind == 'limits':
             check_configured_limits(out, stats)
             check_after_failure(out, stats)
+            check_reuse(out, stats)
         elif kind == 'strings':
             for prefix, n in items:
                 for t in itertools.product(ALPHA, repeat=n):
@@ -398,6 +426,8 @@ def replay(ctx, payload):
         check_configured_limits(out, st)
     elif r['harness'] == 'after_failure':
         check_after_failure(out, st)
+    elif r['harness'] == 'reuse':
+        check_reuse(out, st)
     else:
         check_string(r['s'], out, st, {})
     for v in out:
